@@ -514,12 +514,18 @@ func (s *StubSub) Name() string            { return s.name }
 
 func (s *StubSub) Close() error {
 	b := s.bus
-	// as the real eventbus: drain concurrently so that an emitter blocked on this
-	// sink (it holds the bus read lock while sending) can finish
-	go func() {
-		for range s.out {
-		}
-	}()
+	wildcard := len(s.keys) == 1 && s.keys[0] == TypeKey(event.WildcardSubscription)
+	if !wildcard {
+		// as the real eventbus does for TYPED subscriptions: drain concurrently so that
+		// an emitter blocked on this sink (it holds the bus read lock while sending) can finish
+		go func() {
+			for range s.out {
+			}
+		}()
+	}
+	// a WILDCARD subscription is only unlinked (libp2p's wildcardSub.Close neither drains
+	// nor closes its channel): an emitter blocked on its full sink keeps the read lock and
+	// Close waits for the write lock - the caller must keep reading until Close returns
 	b.mu.Lock()
 	if s.closed {
 		b.mu.Unlock()
@@ -536,7 +542,9 @@ func (s *StubSub) Close() error {
 		}
 	}
 	b.mu.Unlock()
-	close(s.out)
+	if !wildcard {
+		close(s.out)
+	}
 	return nil
 }
 
